@@ -59,7 +59,7 @@ def cases(draw, max_chroms=4, max_bins=6):
     y_dt = draw(st.sampled_from(["float64", "int16"]))
     explicit = draw(st.booleans())
     form = draw(st.sampled_from(["frame", "frame-shuffled", "dict", "chunks-frame", "chunks-dict",
-                                 "chunks-frame", "arrayloader", "chunks-ensure-sorted"]))
+                                 "chunks-frame", "arrayloader", "chunks-ensure-sorted", "dask"]))
     if form == "arrayloader":
         symmetric, colset, count_dt = True, ["count"], draw(st.sampled_from(["int32", "int64"]))
         rows = draw(gen.pixels(n, True, count=st.integers(1, 1000)))
@@ -80,7 +80,7 @@ def cases(draw, max_chroms=4, max_bins=6):
     case = {
         "part": "roundtrip", "bt": bt, "symmetric": symmetric, "rows": rows, "cols": colset,
         "dtypes": dtypes, "eff": {c: eff[c] for c in colset}, "form": form,
-        "cuts": draw(gen.cuts(len(rows), 8)) if form.startswith("chunks") else [],
+        "cuts": draw(gen.cuts(len(rows), 8)) if form.startswith("chunks") or form == "dask" else [],
         "chunksize": draw(st.integers(1, n + 1)) if form == "arrayloader" else None,
         "perm_seed": draw(st.integers(0, 2**16)) if form in ("frame-shuffled", "chunks-ensure-sorted") else None,
         "shuffle": draw(st.sampled_from(["within-rows", "full"])) if form == "chunks-ensure-sorted" else None,
@@ -141,6 +141,11 @@ def build_input(case):
         A = model.dense(rows, n, True, 0, dtype="int64")
         bins = gen.bins_df(case["bt"])
         return cooler.create.ArrayLoader(bins, A, case["chunksize"])
+    if form == "dask":
+        import dask.dataframe as dd
+
+        # sorted partitions of a dask frame are consumed one at a time by create()
+        return dd.from_pandas(frame(rows), npartitions=max(1, len(case["cuts"]) + 1), sort=False)
     if form == "frame":
         return frame(rows)
     if form == "frame-shuffled":
@@ -249,6 +254,21 @@ def check_roundtrip(case, ctx: Ctx):
         check(info["storage-mode"] == ("symmetric-upper" if symmetric else "square"), "storage-mode")
         if "count" in cols:
             check(info["sum"] == sum(r[2] for r in rows), f"info sum {info['sum']} want {sum(r[2] for r in rows)}")
+        if case["junk"]:
+            # the command line view of the same metadata query
+            from ..cliutil import run_cli
+
+            rc, out, exc = run_cli(["info", uri, "-m"])
+            check(rc == 0 and exc is None, f"cooler info -m failed: {exc!r}")
+            check(json.loads(out) == (case["metadata"] if case["metadata"] is not None else {}),
+                  lambda: f"cooler info -m prints {out!r}, stored {case['metadata']!r}")
+            rc, out, exc = run_cli(["info", uri, "-f", "nnz"])
+            check(rc == 0 and out.strip() == str(len(rows)), f"cooler info -f nnz prints {out!r}")
+            rc, out, exc = run_cli(["info", uri])
+            check(rc == 0 and exc is None, f"cooler info failed: {exc!r}")
+            d_ = json.loads(out)
+            check(d_["nbins"] == n and d_["nnz"] == len(rows) and d_["storage-mode"] == info["storage-mode"] and "metadata" not in d_,
+                  f"cooler info prints {d_}")
         want_meta = case["metadata"] if case["metadata"] is not None else {}
         check(info["metadata"] == want_meta and _same_types(info["metadata"], want_meta),
               lambda: f"metadata came back as {info['metadata']!r}, stored {want_meta!r}")
